@@ -10,6 +10,7 @@ import Andes.Model.IslandDriver
 import Andes.Model.SolverCacheDriver
 import Andes.Model.DiscreteDriver
 import Andes.Model.NewtonDriver
+import Andes.Model.StoreDriver
 /-! One case per input line, one canonical output line; the first word selects the model. -/
 
 def handle (line : String) : String :=
@@ -22,6 +23,7 @@ def handle (line : String) : String :=
   | "cli" :: args => Andes.Newton.handleCli args
   | "disc" :: op :: args => Andes.Discrete.handleDisc op args
   | "slv" :: args => Andes.SolverCache.handleSlv args | "pfs" :: args => Andes.SolverCache.handlePfs args | "tdi" :: args => Andes.SolverCache.handleTdi args
+  | "sto" :: args => Andes.Store.handleSto args | "oidx" :: args => Andes.Store.handleOidx args | "qry" :: args => Andes.Store.handleQry args | "lab" :: args => Andes.Store.handleLab args | "fnd" :: args => Andes.Store.handleFnd args | "csv" :: args => Andes.Store.handleCsv args
   | "island" :: args => Andes.Island.handleIsland args
   | "ev" :: args => Andes.Expr.handleEv args
   | "evd" :: args => Andes.Expr.handleEvd args
